@@ -17,6 +17,7 @@ from props.repro_common import Doc, Seg, gen_body, mini_parse_field, parse, norm
 ID = "C11"
 LEVEL = "exploration"
 TIERS = {"quick": {"runs": 60000, "wall": 150}, "thorough": {"runs": 800000, "wall": 1500}}
+HASHSEED_RUNS = {"quick": 300, "thorough": 3000}    # S7: identical event logs under other hash seeds
 RULE = ("world = seeded paragraph(s) with 2..5 fields, 1..3 of them list fields produced by a "
         "layout grammar (values, separators = blanks/tabs/newlines or commas with arbitrary "
         "surrounding blanks, leading/trailing/double separators, space or tab continuation "
